@@ -43,6 +43,8 @@ def main(argv: list[str]) -> int:
     t0 = H.now()
     try:
         H.assert_repo_source()
+        H.preload()
+        H.quiet_logging()
         mod = importlib.import_module(CHECKS[prop])
         if a.replay:
             return _replay(mod, ctx, Path(a.replay))
